@@ -2,7 +2,7 @@ SPEC = dict(
     level="exploration",
     technique="runtime monitor: twin-server differential testing (wrapper on miniredis A / shards vs raw go-redis v8 on miniredis B) driven by seeded command histories, with a hand-written method->go-redis correspondence table, per-command keyspace comparison through miniredis' direct API, reflection-based API coverage accounting, and a breaker-clause scenario on a virtual clock",
     level_text="Every exported command method of redis.Redis (102 methods, plain and Ctx forms, incl. blocking pops, scripts, pipelines, geo, bitmaps, HLL) and every method of kv.Store (1-4 shards, random weights) is executed side by side with the equivalent go-redis call of a hand-written table on generated histories (quick: 220 + 120 histories of 50-300 commands over 6 keys, ~55k command pairs; thorough x25). Compared: return values after the documented conversion, error class (nil / redis.Nil / context.Canceled / server error text), the state of every alphabet key (type, value, exact TTL) after each command and the whole keyspace (union of shards) after each history; 1 in 25 Ctx calls uses a cancelled context. Breaker clause: 10k redis.Nil results and 10k cancelled calls never produce ErrServiceUnavailable; after the server is closed connection failures must produce a rejection; per method: 60 consecutive cancelled-context calls (every Ctx method of redis.Redis and kv.Store) and 60 consecutive redis.Nil outcomes (every Nil-capable method, plain and Ctx form) on a fresh breaker never produce a rejection. Held = no deviation on the executions observed, not a proof.",
-    level_note="Trusts: miniredis v2.23.1 as the server on both sides (where it deviates from real Redis both sides deviate alike; GEOHASH is not implemented and is only checked to fail identically), go-redis v8.11.5 as the reference client, the 900-line table. Cluster mode (Type=cluster), TLS, passwords, real network faults other than a closed listener, and concurrent callers are not exercised. The per-address breaker also counts server error replies (WRONGTYPE...) as failures; a resulting rejection is re-issued on a fresh instance and counted, not flagged.",
+    level_note="Trusts: miniredis v2.23.1 as the server on both sides (where it deviates from real Redis both sides deviate alike; GEOHASH is not implemented and is only checked to fail identically), go-redis v8.11.5 as the reference client, the 900-line table. Type=cluster is exercised in every 8th redis history against a single miniredis (reference: go-redis ClusterClient), a password on the fourth kv shard, an expired-deadline context on 1 in 50 Ctx calls, slow-call threshold 0 in every third history, and a per-method call against closed servers; TLS, multi-node clusters, network faults other than a closed listener, and concurrent callers are not exercised. The per-address breaker also counts server error replies (WRONGTYPE...) as failures; a resulting rejection is re-issued on a fresh instance and counted, not flagged.",
     design_ref="DESIGN.md §3 C12",
     assumptions=[
         "SetEx/SetNXEx are called with seconds >= 1 and the ...AndLimit methods with page >= 0 and size >= 0 (size 0 = empty page); other values are outside the documented domain and not asserted",
@@ -16,6 +16,6 @@ SPEC = dict(
     ],
     runs=[
         dict(pkg="./lib/store/redis", run="^TestVerifC12(Redis|Breaker|BreakerPerMethodRedis)$", timeout=300, timeout_thorough=3000),
-        dict(pkg="./lib/store/redis", run="^TestVerifC12(KV|BreakerPerMethodKV)$", timeout=300, timeout_thorough=3000),
+        dict(pkg="./lib/store/redis", run="^TestVerifC12(KV|BreakerPerMethodKV|Outage)$", timeout=300, timeout_thorough=3000),
     ],
 )
